@@ -847,9 +847,250 @@ def oracle_unique(tn, Y, m, seed):
     return None
 
 
+
+# ----------------------------------------------------------------------------
+# extreme scales: cores = small integer cores * 2^e_k (exact in floats); the distribution is that of the integer
+# tensor, computed exactly with Python integers, whatever the scale
+# ----------------------------------------------------------------------------
+
+def _int_cores(Y0):
+    return [[[[int(x) for x in row] for row in sl] for sl in G] for G in Y0]
+
+
+def exact_entry(Y0, idx):
+    v = [1]
+    for G, i in zip(_int_cores(Y0), idx):
+        r2 = len(G[0][0])
+        v = [sum(v[a] * G[a][i][b] for a in range(len(G))) for b in range(r2)]
+    return v[0]
+
+
+def exact_norm2(Y0):
+    W = [[1]]
+    for G in reversed(_int_cores(Y0)):
+        r1, n, r2 = len(G), len(G[0]), len(G[0][0])
+        W = [[sum(G[a][i][b] * G[a2][i][b2] * W[b][b2] for i in range(n) for b in range(r2) for b2 in range(r2))
+              for a2 in range(r1)] for a in range(r1)]
+    return W[0][0]
+
+
+def exact_total(Y0):
+    w = [1]
+    for G in reversed(_int_cores(Y0)):
+        r1, n, r2 = len(G), len(G[0]), len(G[0][0])
+        w = [sum(G[a][i][b] * w[b] for i in range(n) for b in range(r2)) for a in range(r1)]
+    return w[0]
+
+
+def oracle_scale(tn, fn, Y0, exps, m, seed):
+    """real draws from the scaled tensor through the auditing generator: no exception, finite distributions, and the
+    audited conditionals along every drawn row multiply to the exact probability of that row"""
+    inp = dict(fn=fn, kind='scale', Y0=[np.asarray(G).tolist() for G in Y0], exps=list(exps), m=m, seed=seed)
+    Y0 = [np.asarray(G, dtype=float) for G in Y0]
+    Y = [G * 2.0 ** e for G, e in zip(Y0, exps)]
+    d = len(Y)
+    n = [G.shape[1] for G in Y]
+    den = exact_norm2(Y0) if fn == 'sample_square' else exact_total(Y0)
+    if den <= 0:
+        return None
+    g = Aud(seed)
+    if fn == 'sample_square':
+        I, err, rec = run_square(tn, Y, m, False, 5, 100, g)
+        if err is not None:
+            return dict(what='sample_square raised on a valid tensor (cores scaled by powers of two): ' + repr(err)[:160],
+                        input=inp)
+        att = attempts_of(g, d)
+        if len(att) != 1 or att[0][1] is None:
+            return dict(what='sample_square(unique=False): unexpected call structure on the generator', input=inp)
+        P = att[0][2]
+    else:
+        impl, I = run_sample(tn, Y, m, 0.0, g)
+        if impl[0] != 0:
+            return dict(what='sample raised on a non-negative tensor with positive total (cores scaled by powers of '
+                             'two, all partial products representable)', input=inp, got=impl)
+        P = impl[2]
+    f = check_int_array(I, m, n, fn, inp)
+    if f:
+        return f
+    for j, r in enumerate(np.asarray(I).tolist()):
+        pr = 1.0
+        for k in range(d):
+            pv = np.asarray(P[j][k], dtype=float)
+            if pv.shape != (n[k],) or not np.isfinite(pv).all() or pv.min() < 0 or abs(pv.sum() - 1) > 1e-9:
+                return dict(what=f'{fn} hands choice something that is not a distribution (scaled cores)', input=inp,
+                            got=pv.tolist(), at=[r, k])
+            pr *= pv[r[k]]
+        e = exact_entry(Y0, r)
+        exp = float(Fraction(e * e, den)) if fn == 'sample_square' else float(Fraction(e, den))
+        if abs(pr - exp) > 1e-7 * exp + 1e-11:
+            return dict(what=f'{fn}: product of the conditional probabilities along a drawn multi-index differs from the '
+                             'exact probability of the tensor (cores scaled by powers of two)', input=inp, at=r,
+                        got=pr, expected=exp)
+    return None
+
+
+def gen_scale_cases(rng, deep):
+    out = []
+
+    def base(d, nonneg, nmax=2, rmax=2):
+        while True:
+            Y0 = gen_tt(rng, d=d, nmax=nmax, rmax=rmax, lo=(0 if nonneg else -2), hi=2)
+            if (exact_total(Y0) if nonneg else exact_norm2(Y0)) > 0:
+                return [G.tolist() for G in Y0]
+    # short chains, every core scaled by 2^+e or 2^-e (adjacent products stay representable)
+    for sgn in (1, -1):
+        for d in (2, 3, 4):
+            e = rng.randint(100, 480)
+            out.append(dict(fn='sample_square', kind='scale', Y0=base(d, False, 3, 2), exps=[sgn * e] * d, m=4,
+                            seed=rng.randrange(10 ** 6)))
+    # scale concentrated in one core / spread with mixed signs
+    for t in range(6 if deep else 3):
+        d = rng.randint(2, 5)
+        ex = [0] * d
+        ex[rng.randrange(d)] = rng.choice([-1, 1]) * rng.randint(300, 600)
+        out.append(dict(fn='sample_square', kind='scale', Y0=base(d, False, 3, 2), exps=ex, m=3, seed=rng.randrange(10 ** 6)))
+        ex = [rng.choice([-1, 1]) * rng.randint(100, 450) for _ in range(d)]
+        out.append(dict(fn='sample_square', kind='scale', Y0=base(d, False, 3, 2), exps=ex, m=3, seed=rng.randrange(10 ** 6)))
+    # long chains: total norm 2^+-(300 .. 1200)
+    for t in range(6 if deep else 3):
+        d = rng.choice([12, 20, 30, 40])
+        e = rng.choice([-1, 1]) * rng.randint(max(8, 300 // d), 30)
+        out.append(dict(fn='sample_square', kind='scale', Y0=base(d, False), exps=[e] * d, m=3, seed=rng.randrange(10 ** 6)))
+    # sample: alternating exponents (every partial product the code forms stays representable)
+    for t in range(6 if deep else 3):
+        d = rng.choice([2, 3, 4, 6, 12, 24])
+        e = rng.randint(100, 300)
+        sg = rng.choice([-1, 1])
+        out.append(dict(fn='sample', kind='scale', Y0=base(d, True), exps=[sg * e * (-1) ** k for k in range(d)], m=3,
+                        seed=rng.randrange(10 ** 6)))
+    return out
+
+
+# ----------------------------------------------------------------------------
+# unique=True on strongly peaked tensors, every kind of seed
+# ----------------------------------------------------------------------------
+
+def gen_peaked(rng):
+    """rank-1 tensor: every mode vector = unit vector + small noise, so one entry carries ~97% of the squared mass"""
+    d = rng.randint(2, 3)
+    Y = []
+    for k in range(d):
+        n = rng.randint(2, 3)
+        v = np.array([rng.choice([-1, 1]) * rng.choice([0.0625, 0.125]) for _ in range(n)])
+        v[rng.randrange(n)] = rng.choice([-1.0, 1.0])
+        Y.append(v.reshape(1, n, 1))
+    return Y
+
+
+def oracle_unique_seedkind(tn, Y, m, seedkind, max_rep=8):
+    inp = dict(fn='sample_square', kind='peaked', Y=[np.asarray(G).tolist() for G in Y], m=m, unique=True,
+               seedkind=seedkind, max_rep=max_rep)
+    Y = [np.asarray(G, dtype=float) for G in Y]
+    seed = {'None': None, '0': 0, '1': 1}.get(seedkind)
+    if seedkind.startswith('gen'):
+        seed = np.random.default_rng(int(seedkind[3:]))
+    A = full(Y)
+    try:
+        with warnings.catch_warnings():
+            warnings.simplefilter('ignore')
+            I = tn.sample_square(Y, m, unique=True, seed=seed, max_rep=max_rep)
+    except ValueError as e:
+        if 'required number of samples' in str(e):
+            return None                  # the advertised exit when not enough distinct rows were found
+        return dict(what='sample_square(unique=True) raised: ' + repr(e)[:200], input=inp)
+    except Exception as e:  # noqa
+        return dict(what='sample_square(unique=True) raised: ' + repr(e)[:200], input=inp)
+    f = check_int_array(I, m, list(A.shape), 'sample_square', inp)
+    if f:
+        return f
+    if len({tuple(r) for r in np.asarray(I).tolist()}) != m:
+        return dict(what=f'sample_square(unique=True, seed={seedkind}) returned repeated rows', input=inp,
+                    got=np.asarray(I).tolist())
+    return None
+
+
+def oracle_seedkind(tn, fn, seedkind, args):
+    """shape / bounds / dtype of every sampler for seed None, 0 and a Generator object; m given as float too"""
+    inp = dict(fn=fn, kind='seedkind', seedkind=seedkind, args=args)
+    seed = {'None': None, '0': 0}.get(seedkind)
+    if seedkind.startswith('gen'):
+        seed = np.random.default_rng(int(seedkind[3:]))
+    try:
+        with warnings.catch_warnings():
+            warnings.simplefilter('ignore')
+            if fn in ('sample', 'sample_square'):
+                Y = [np.asarray(G, dtype=float) for G in args['Y']]
+                n = [G.shape[1] for G in Y]
+                m = args['m']
+                if fn == 'sample':
+                    I = tn.sample(Y, m, seed=seed, unsert=args.get('unsert', 0.0))
+                else:
+                    I = tn.sample_square(Y, m, unique=args['unique'], seed=seed)
+                f = check_int_array(I, int(m), n, fn, inp)
+                if f:
+                    return f
+                w = full(Y) if fn == 'sample' else full(Y) ** 2
+                if (w[tuple(np.asarray(I).T)] <= 1e-13 * w.sum()).any() and args.get('unsert', 0.0) == 0.0:
+                    return dict(what=f'{fn}(seed={seedkind}) drew a multi-index of probability zero', input=inp,
+                                got=np.asarray(I).tolist())
+                if fn == 'sample_square' and args['unique'] and len({tuple(r) for r in np.asarray(I).tolist()}) != int(m):
+                    return dict(what=f'sample_square(unique=True, seed={seedkind}) returned repeated rows', input=inp)
+                return None
+            if fn == 'sample_lhs':
+                I = tn.sample_lhs(args['n'], args['m'], seed=seed)
+                f = check_int_array(I, int(args['m']), args['n'], fn, inp)
+                if f:
+                    return f
+                for k, nk in enumerate(args['n']):
+                    cnt = np.bincount(I[:, k], minlength=nk)
+                    if not ((cnt == int(args['m']) // nk) | (cnt == -(-int(args['m']) // nk))).all():
+                        return dict(what=f'sample_lhs(seed={seedkind}): an index of a mode is not used floor(m/n) or '
+                                         'ceil(m/n) times', input=inp, got=cnt.tolist(), mode=k)
+                return None
+            if fn == 'sample_rand':
+                return check_int_array(tn.sample_rand(args['n'], args['m'], seed=seed), int(args['m']), args['n'], fn, inp)
+            if fn == 'sample_tt':
+                I, idx, im = tn.sample_tt(args['n'], args['r'], seed=seed)
+                I, idx, im = np.asarray(I), np.asarray(idx), np.asarray(im)
+                d = len(args['n'])
+                if idx.shape != (d + 1,) or im.shape != (d,) or idx[0] != 0 or idx[-1] != I.shape[0]:
+                    return dict(what=f'sample_tt(seed={seedkind}): idx / idx_many have the wrong shape or ends', input=inp)
+                f = check_int_array(I, I.shape[0], args['n'], fn, inp)
+                if f:
+                    return f
+                r = args['r']
+                for k in range(d):
+                    l1 = 1 if (k == 0 and d > 1) else r
+                    l2 = 1 if k == d - 1 else r
+                    if idx[k + 1] - idx[k] != args['n'][k] * l1 * l2 or im[k] != l2:
+                        return dict(what=f'sample_tt(seed={seedkind}): block length or idx_many differ from '
+                                         'n_k * len_1 * len_2', input=inp, mode=k)
+                    blk = I[idx[k]:idx[k + 1]]
+                    exp_col = np.repeat(np.arange(args['n'][k]), l1 * l2)
+                    if blk[:, k].tolist() != exp_col.tolist():
+                        return dict(what=f'sample_tt(seed={seedkind}): mode column of a block is not in product order',
+                                    input=inp, mode=k)
+                return None
+            if fn == 'sample_rand_poi':
+                X = np.asarray(tn.sample_rand_poi(args['a'], args['b'], args['m'], seed=seed))
+                if X.shape != (int(args['m']), len(args['a'])) or (X < np.asarray(args['a'])[None]).any() or \
+                        (X > np.asarray(args['b'])[None]).any():
+                    return dict(what=f'sample_rand_poi(seed={seedkind}): wrong shape or point outside the limits', input=inp)
+                return None
+    except Exception as e:  # noqa
+        return dict(what=f'{fn}(seed={seedkind}) raised on a valid input: ' + repr(e)[:200], input=inp)
+    return None
+
+
 def _oracle(tn, p):
     """dispatch for search candidates and replay"""
     fn = p['fn']
+    if p.get('kind') == 'scale':
+        return oracle_scale(tn, fn, p['Y0'], p['exps'], p['m'], p['seed'])
+    if p.get('kind') == 'peaked':
+        return oracle_unique_seedkind(tn, p['Y'], p['m'], p['seedkind'], p.get('max_rep', 8))
+    if p.get('kind') == 'seedkind':
+        return oracle_seedkind(tn, fn, p['seedkind'], p['args'])
     Y = [np.array(G, dtype=float) for G in p['Y']] if 'Y' in p else None
     if fn == 'sample':
         if 'seed' in p:
@@ -927,6 +1168,33 @@ def search(R, ctx, deep, hints):
             a = [float(rng.randint(-3, 3)) for _ in range(d)]
             cand.append(dict(fn='sample_rand_poi', a=a, b=[x + 1.5 for x in a], m=rng.randint(1, 6),
                              seed=rng.randrange(10 ** 6)))
+    # extreme scales (cores times powers of two, long chains): exact probabilities from the integer tensor
+    cand += gen_scale_cases(rng, deep)
+    # unique=True on strongly peaked tensors (the restart branch), for every kind of seed
+    for t in range(10 if deep else 5):
+        Yp = gen_peaked(rng)
+        mm = rng.choice([2, 3])
+        for sk in ('None', '0', '1', f'gen{rng.randrange(1000)}'):
+            cand.append(dict(fn='sample_square', kind='peaked', Y=[G.tolist() for G in Yp], m=mm, seedkind=sk, max_rep=8))
+    # every sampler with seed None / 0 / a Generator object, m given as a float as well
+    for sk in ('0', 'None', f'gen{rng.randrange(1000)}'):
+        Ya = gen_tt(rng, lo=0, hi=3)
+        while not full(Ya).sum() > 0:
+            Ya = gen_tt(rng, lo=0, hi=3)
+        Yb = gen_tt(rng, lo=-2, hi=2)
+        while not np.abs(full(Yb)).sum() > 0:
+            Yb = gen_tt(rng, lo=-2, hi=2)
+        nn_ = [rng.randint(1, 5) for _ in range(rng.randint(1, 4))]
+        aa = [float(rng.randint(-3, 3)) for _ in nn_]
+        for fn_, args in (('sample', dict(Y=[G.tolist() for G in Ya], m=rng.choice([1, 3, 4.0]), unsert=0.0)),
+                          ('sample', dict(Y=[G.tolist() for G in Ya], m=2, unsert=1e-10)),
+                          ('sample_square', dict(Y=[G.tolist() for G in Yb], m=rng.choice([1, 2, 3.0]), unique=False)),
+                          ('sample_square', dict(Y=[G.tolist() for G in Yb], m=1, unique=True)),
+                          ('sample_lhs', dict(n=nn_, m=rng.choice([1, 4, 7, 6.0]))),
+                          ('sample_rand', dict(n=nn_, m=rng.choice([1, 5, 3.0]))),
+                          ('sample_tt', dict(n=nn_, r=rng.randint(1, 3))),
+                          ('sample_rand_poi', dict(a=aa, b=[x + 2.5 for x in aa], m=rng.choice([1, 4, 2.0])))):
+            cand.append(dict(fn=fn_, kind='seedkind', seedkind=sk, args=args))
     for p in cand:
         n_eval += 1
         try:
@@ -958,7 +1226,9 @@ def search(R, ctx, deep, hints):
             fails.append(dict(what='sampler raised on a valid input: ' + repr(e)[:200], input=dict(seed=s)))
             break
     R.search.append(dict(name='per-multi-index product of audited conditionals, shapes/bounds/dtype, uniqueness, '
-                              'LHS counts, sample_tt layout, support + conservative chi-square',
+                              'LHS counts, sample_tt layout, support + conservative chi-square; extreme scales (cores * 2^+-(100..600), '
+                              'chains up to d = 40) against exact integer probabilities; unique=True on peaked tensors '
+                              'and every sampler for seed None / 0 / 1 / Generator, m as float',
                          evaluations=n_eval, failures=len(fails), deep=deep))
     return fails
 
